@@ -34,6 +34,14 @@ pub struct Cfg {
     /// 3 = like 2 and an options map that became empty is left out altogether
     #[serde(default)]
     pub wire: u8,
+    /// assertions only: while the user is being asked, another party puts a further credential of the RP in front of
+    /// all others in the store (the one shown for consent must still be the one that signs)
+    #[serde(default)]
+    pub store_changes_during_prompt: bool,
+}
+
+fn late_credential() -> Passkey {
+    make_passkey(34, RP, b"matching-cred-0000-late", Some(b"uh-late"), Some(2), None)
 }
 
 /// re-read a request from its CBOR encoding after dropping the option entries that carry their default value
@@ -84,6 +92,10 @@ pub struct Outcome {
 pub fn execute(c: &Cfg, matching: bool) -> Result<Outcome, String> {
     let store = RefStore::with(Disc::Full, contents(matching));
     let uv = ScriptedUv::new(c.script.clone());
+    if c.store_changes_during_prompt {
+        let s2 = store.clone();
+        uv.on_next_check(move || s2.prepend(late_credential()));
+    }
     let auth = cer::build_authenticator(store.clone(), uv.clone(), &AuthCfg { counter: true, ..Default::default() });
     let exclude = c.exclude_list.then(|| vec![cer::descriptor(b"matching-cred-0001"), cer::descriptor(b"never-seen")]);
     let pin = c.pin_auth.then(|| vec![1u8; 16].into());
@@ -165,7 +177,15 @@ pub fn check(ctx: &mut Ctx, c: &Cfg) -> Result<(), String> {
     ctx.eval();
     ctx.nontrivial(c);
     let out = execute(c, c.matching)?;
-    let before: Vec<PkSnap> = contents(c.matching).iter().map(snap).collect();
+    // what the store holds apart from the ceremony's own effect (the late credential arrives when the user is asked)
+    let expected_before = |matching: bool, asked: bool| -> Vec<PkSnap> {
+        let mut v: Vec<PkSnap> = contents(matching).iter().map(snap).collect();
+        if c.store_changes_during_prompt && asked {
+            v.insert(0, snap(&late_credential()));
+        }
+        v
+    };
+    let before: Vec<PkSnap> = expected_before(c.matching, !out.uv_calls.is_empty());
     // options as the authenticator sees them
     let (up, uv) = match c.client_uv_req {
         Some(r) => (true, r % 3 != 2),
@@ -217,7 +237,7 @@ pub fn check(ctx: &mut Ctx, c: &Cfg) -> Result<(), String> {
                 if other.result != out.result {
                     return Err(format!("while consent is missing the outcome depends on whether a matching credential exists: {:?} (matching={}) vs {:?} (matching={})", out.result, c.matching, other.result, !c.matching));
                 }
-                let other_before: Vec<PkSnap> = contents(!c.matching).iter().map(snap).collect();
+                let other_before: Vec<PkSnap> = expected_before(!c.matching, !other.uv_calls.is_empty());
                 if other.store_after != other_before {
                     return Err("the ceremony failed for lack of consent but the store changed (other store content)".into());
                 }
@@ -248,13 +268,28 @@ pub fn all_configs() -> Vec<Cfg> {
                                 for &wire in wires {
                                     if create {
                                         for exclude_list in [false, true] {
-                                            v.push(Cfg { create, rk: bits & 1 != 0, up: bits & 2 != 0, uv: bits & 4 != 0, script: script.clone(), pin_auth, matching, exclude_list, client_uv_req: None, wire });
+                                            v.push(Cfg { create, rk: bits & 1 != 0, up: bits & 2 != 0, uv: bits & 4 != 0, script: script.clone(), pin_auth, matching, exclude_list, client_uv_req: None, wire, store_changes_during_prompt: false });
                                         }
                                     } else {
-                                        v.push(Cfg { create, rk: bits & 1 != 0, up: bits & 2 != 0, uv: bits & 4 != 0, script: script.clone(), pin_auth, matching, exclude_list: false, client_uv_req: None, wire });
+                                        v.push(Cfg { create, rk: bits & 1 != 0, up: bits & 2 != 0, uv: bits & 4 != 0, script: script.clone(), pin_auth, matching, exclude_list: false, client_uv_req: None, wire, store_changes_during_prompt: false });
                                     }
                                 }
                             }
+                        }
+                    }
+                }
+            }
+        }
+    }
+    // assertions during which the store changes while the user is asked
+    for bits in 0..8u8 {
+        for ve in [None, Some(false), Some(true)] {
+            for pe in [false, true] {
+                for o in &outcomes {
+                    for pin_auth in [false, true] {
+                        for matching in [false, true] {
+                            let script = UvScript { presence_enabled: pe, verification_enabled: ve, outcome: *o, yields: 0 };
+                            v.push(Cfg { create: false, rk: bits & 1 != 0, up: bits & 2 != 0, uv: bits & 4 != 0, script, pin_auth, matching, exclude_list: false, client_uv_req: None, wire: 0, store_changes_during_prompt: true });
                         }
                     }
                 }
@@ -269,7 +304,7 @@ pub fn all_configs() -> Vec<Cfg> {
                     for matching in [false, true] {
                         for rk in [false, true] {
                             let script = UvScript { presence_enabled: true, verification_enabled: ve, outcome: *o, yields: 0 };
-                            v.push(Cfg { create, rk, up: true, uv: req != 2, script, pin_auth: false, matching, exclude_list: create && matching, client_uv_req: Some(req), wire: 0 });
+                            v.push(Cfg { create, rk, up: true, uv: req != 2, script, pin_auth: false, matching, exclude_list: create && matching, client_uv_req: Some(req), wire: 0, store_changes_during_prompt: false });
                         }
                     }
                 }
@@ -280,7 +315,7 @@ pub fn all_configs() -> Vec<Cfg> {
 }
 
 pub fn run(ctx: &mut Ctx) {
-    ctx.rule = "complete product: operation (create/assert) x requested rk,up,uv (8) x verification capability (none, unconfigured, configured) x presence capability (2) x user-validation outcome (4 presence/verification results + 3 error codes) x pin-auth (2) x request handed over as a value / through its CBOR encoding with default-valued options omitted (and the emptied options map omitted) x store content (matching credentials present/absent; create: exclude list absent/naming a held credential), each on a fresh authenticator with call-logging doubles; plus the same through Client (UV requirement x capability x outcome x content x rk). Every configuration is distinct and non-trivial.".into();
+    ctx.rule = "complete product: operation (create/assert) x requested rk,up,uv (8) x verification capability (none, unconfigured, configured) x presence capability (2) x user-validation outcome (4 presence/verification results + 3 error codes) x pin-auth (2) x request handed over as a value / through its CBOR encoding with default-valued options omitted (and the emptied options map omitted) x store content (matching credentials present/absent; for assertions also with a further credential of the RP put in front of the others while the user is being asked; create: exclude list absent/naming a held credential), each on a fresh authenticator with call-logging doubles; plus the same through Client (UV requirement x capability x outcome x content x rk). Every configuration is distinct and non-trivial.".into();
     ctx.exhaustive = Some(true);
     ctx.assumptions = vec![
         "'consent is missing' = verification requested without configured capability, or create with up=false, or the validation step returned an error, or it did not report a presence/verification that was requested".into(),
